@@ -41,10 +41,9 @@ static size_t g_len; /* its length: g_str[g_len] is the first NUL */
 static size_t g_a0, g_a1, g_b0, g_b1, g_c0, g_c1;
 static size_t g_lead;            /* offset of the first non-zero mantissa digit (integer or fraction part), PN_N + 8 if there is none */
 static long g_pm;                /* mantissa digits alone denote a value in [10^pm, 10^(pm+1)) (when there is a non-zero digit) */
-/* integer digits, counted from the first non-zero one (leading zeros do not change the value a digit string denotes):
- * g_S[j], j <= 20: value of the first j significant integer digits modulo 2^64; g_over[j]: that value is 2^64 or more */
-static uint64_t g_S[22];
-static _Bool g_over[22];
+/* g_S[k], a0 <= k <= a1: value of the integer digits [a0,k) modulo 2^64; g_over[k]: that value is 2^64 or more */
+static uint64_t g_S[PN_N + 2];
+static _Bool g_over[PN_N + 2];
 static long g_E[PN_N + 2];       /* g_E[k], c0 <= k <= c1: value of the exponent digits [c0,k) (stops growing beyond 10^9) */
 /* a value m has j decimal digits (j = 0: m == 0) exactly when g_lo[j] <= m <= g_hi[j] */
 static const uint64_t g_lo[21] = {0ull, 1ull, 10ull, 100ull, 1000ull, 10000ull, 100000ull, 1000000ull, 10000000ull, 100000000ull,
@@ -104,7 +103,11 @@ static void spec_scan(const char *s, size_t n, struct lit_info *o) {
   _Bool first_ok = a0 < n && ((s[a0] >= '0' && s[a0] <= '9') || s[a0] == '.');
   /* running value E of the exponent digits read so far; stored once per position (unconditional stores keep the formula small) */
   long E = 0;
+  uint64_t S = 0;
+  _Bool over = 0;
   g_E[0] = 0;
+  g_S[0] = 0;
+  g_over[0] = 0;
   for (unsigned k = 0; k < PN_N; k++) {
     if (k >= a0 && k < n && ph != 5) {
       char ch = s[k];
@@ -114,6 +117,11 @@ static void spec_scan(const char *s, size_t n, struct lit_info *o) {
       if (ph == 1) {
         if (dig) {
           nint++; mant = 1;
+          /* S * 10 + d >= 2^64 = 1844674407370955161 * 10 + 6 */
+          _Bool carry = S > 1844674407370955161ull || (S == 1844674407370955161ull && d >= 6);
+          if (carry && !over) f4 = S == 1844674407370955161ull; /* the digits read 18446744073709551616 .. 19 so far */
+          if (carry) over = 1;
+          S = S * 10 + d;
         } else {
           a1 = k;
           if (dot) { has_dot = 1; b0 = k + 1; ph = 2; }
@@ -136,6 +144,8 @@ static void spec_scan(const char *s, size_t n, struct lit_info *o) {
       }
     }
     g_E[k + 1] = E;
+    g_S[k + 1] = S;
+    g_over[k + 1] = over;
   }
   /* the string ended inside a group */
   if (ph == 1) { a1 = n; b0 = b1 = n; c0 = c1 = n; }
@@ -143,23 +153,6 @@ static void spec_scan(const char *s, size_t n, struct lit_info *o) {
   else if (ph == 3) { c0 = c1 = n; }
   else if (ph == 4) { c1 = n; }
   g_a0 = a0; g_a1 = a1; g_b0 = b0; g_b1 = b1; g_c0 = c0; g_c1 = c1; g_lead = lead;
-  /* value of the integer digits: Horner from the first non-zero digit, at most 20 digits stay below 2^64 */
-  size_t nsig = a1 > lead ? a1 - lead : 0;
-  uint64_t S = 0;
-  _Bool over = 0;
-  g_S[0] = 0;
-  g_over[0] = 0;
-  for (unsigned j = 0; j < 20; j++) {
-    if (j < nsig) {
-      unsigned d = (unsigned)(s[lead + j] - '0');
-      if (S == 1844674407370955161ull && d >= 6) f4 = 1;
-      if ((((u128)S * 10 + d) >> 64) != 0) over = 1;
-      S = S * 10 + d;
-    }
-    g_S[j + 1] = S;
-    g_over[j + 1] = over;
-  }
-  if (nsig > 20) over = 1; /* 21 significant digits: at least 10^20 > 2^64 */
   _Bool nonzero = lead <= PN_N;
   /* index of the leading non-zero digit among the mantissa digits; 10^pm <= mantissa digits as a number with the point after nint digits */
   long lead_idx = !nonzero ? 0 : lead < a1 ? (long)(lead - a0) : (long)nint + (long)(lead - b0);
